@@ -104,7 +104,7 @@ theorem push_bl : ∀ (x : SVal), noRaw x = true → ∀ (b : B) (path : String)
     · rw [push]
       have : blameDT ext path dt n md .none = [path] := by simp [blameDT, hi]
       rw [this]
-      exact pushNone_bl hg ha
+      exact pushNone_bl hg ha (by simp only [vsize] at hcap; exact hcap)
   | .unit, hraw => by
     intro b path dt n md hg ha hcap
     by_cases hi : (interpDT ext dt n md .unit).isOk = true
@@ -114,7 +114,7 @@ theorem push_bl : ∀ (x : SVal), noRaw x = true → ∀ (b : B) (path : String)
       unfold push
       split
       · exact Bl.ctx_self _ (by rw [ha.path]; exact List.mem_singleton.2 rfl) (NoCtx.bl _)
-      · exact pushNone_bl hg ha
+      · exact pushNone_bl hg ha (by simp only [vsize] at hcap; exact hcap)
   | .bool v, hraw => by
     intro b path dt n md hg ha hcap
     exact scalar_bl hg ha hraw hcap (by simp [blameDT]) (by rw [push])
@@ -142,7 +142,7 @@ theorem push_bl : ∀ (x : SVal), noRaw x = true → ∀ (b : B) (path : String)
       unfold push
       split
       · exact Bl.ctx_self _ (by rw [ha.path]; exact List.mem_singleton.2 rfl) (NoCtx.bl _)
-      · exact pushNone_bl hg ha
+      · exact pushNone_bl hg ha (by simp only [vsize] at hcap; exact hcap)
   | .bytes bs, hraw => by
     intro b path dt n md hg ha hcap
     by_cases hi : (interpDT ext dt n md (.bytes bs)).isOk = true
@@ -224,14 +224,15 @@ theorem push_bl : ∀ (x : SVal), noRaw x = true → ∀ (b : B) (path : String)
         obtain ⟨ufs, mode, rfl, _⟩ := hsh
         refine union_row_bl (i := i) (pc := fun c => match c with
             | .unknownVariant _ => ctx c.ann (SaModel.fail "Unknown variant does not support serialize_unit")
-            | _ => pushNone c) hg ha (fun hn => by simp [blameDT, hi', hn]) (fun tid nm cdt cn cmd c hufs hgc hac _ => ?_)
-          (fun c msg => ?_)
+            | _ => pushNone c) hg ha (fun hn => by simp [blameDT, hi', hn])
+          (by have := vsize_pos ext (.unitVariant a i vn); simp only [room] at hcap; omega)
+          (fun tid nm cdt cn cmd c hufs hgc hac hrc => ?_) (fun c msg => ?_)
         · have hS : blameDT ext path (.union ufs mode) n md (.unitVariant a i vn) = [path ++ "." ++ childName nm] := by
             simp [blameDT, hi', hufs]
           rw [hS]
           split
           · exact Bl.ctx_self _ (by rw [hac.path]; exact List.mem_singleton.2 rfl) (NoCtx.bl _)
-          · exact pushNone_bl hgc hac
+          · exact pushNone_bl hgc hac (by have := vsize_pos ext (.unitVariant a i vn); simp only [room] at hcap; omega)
         · split
           · rw [ann_eq_posAnn]; exact ctx_never_plain _ _ _
           · exact pushNone_never_plain c msg
@@ -253,6 +254,7 @@ theorem push_bl : ∀ (x : SVal), noRaw x = true → ∀ (b : B) (path : String)
         obtain ⟨ufs, mode, rfl, _⟩ := hsh
         simp only [room] at hcap
         refine union_row_bl (i := i) (pc := fun c => push ext c v) hg ha (fun hn => by simp [blameDT, hi', hn])
+          (by have := vsize_pos ext v; omega)
           (fun tid nm cdt cn cmd c hufs hgc hac hrc => ?_) (fun c msg => push_never_plain ext v c msg)
         have hS : blameDT ext path (.union ufs mode) n md (.newtypeVariant a i vn v) =
             (if (blameDT ext (path ++ "." ++ childName nm) cdt cn cmd v).isEmpty then [path]
@@ -283,7 +285,7 @@ theorem push_bl : ∀ (x : SVal), noRaw x = true → ∀ (b : B) (path : String)
         simp only [room] at hcap
         refine union_row_bl (i := i) (pc := fun c => ctx c.ann (seqLikeWith
             (fun large el offs => pushElems ext large el offs xs) (fun el c => pushCountElems ext el c xs)
-            (fun s => pushTupleElems ext s xs) (u8All xs) c .tupleStruct)) hg ha (fun hn => by simp [blameDT, hi', hn])
+            (fun s => pushTupleElems ext s xs) (u8All xs) c .tupleStruct)) hg ha (fun hn => by simp [blameDT, hi', hn]) (by omega)
           (fun tid nm cdt cn cmd c hufs hgc hac hrc => ?_)
           (fun c msg => by rw [ann_eq_posAnn]; exact ctx_never_plain _ _ _)
         exact Bl.mono (seqS_sub_tupleVariant hufs hi')
@@ -311,7 +313,7 @@ theorem push_bl : ∀ (x : SVal), noRaw x = true → ∀ (b : B) (path : String)
         obtain ⟨ufs, mode, rfl, _⟩ := hsh
         simp only [room] at hcap
         refine union_row_bl (i := i) (pc := fun c => ctx c.ann (recordWith (fun s => pushFields ext s fields) c)) hg ha
-          (fun hn => by simp [blameDT, hi', hn]) (fun tid nm cdt cn cmd c hufs hgc hac hrc => ?_)
+          (fun hn => by simp [blameDT, hi', hn]) (by omega) (fun tid nm cdt cn cmd c hufs hgc hac hrc => ?_)
           (fun c msg => by rw [ann_eq_posAnn]; exact ctx_never_plain _ _ _)
         exact Bl.mono (recS_sub_structVariant hufs hi') (recordLike_bl (pushFields_bl fields hraw') hgc hac (by omega))
       | bytes _ ty _ _ _ =>
